@@ -815,4 +815,48 @@ theorem world_step_ok {pi tiny : ℝ} (ht : 0 < tiny) {σ : World ℝ} (h : Worl
     exact h.set_fn g f _ hg (Fn.pushed_sameSig f pl)
       (Fn.pushed_ok hfok pl hok (fun n q hq => (findP_some hq).2))
 
+
+/-! ### histories -/
+
+/-- the worlds reachable from the empty one by operations whose preconditions hold -/
+inductive Reach (pi tiny : ℝ) : World ℝ → Prop
+  | empty : Reach pi tiny {}
+  | step {σ σ' : World ℝ} {op : Op ℝ} : Reach pi tiny σ → OpOk tiny σ op →
+      σ.step pi tiny op = .ok σ' → Reach pi tiny σ'
+
+theorem worldInv_empty (pi tiny : ℝ) : WorldInv pi tiny {} :=
+  ⟨fun f hf => by simp at hf, fun w hw => by simp at hw⟩
+
+theorem Reach.inv {pi tiny : ℝ} (ht : 0 < tiny) {σ : World ℝ} (h : Reach pi tiny σ) :
+    WorldInv pi tiny σ := by
+  induction h with
+  | empty => exact worldInv_empty pi tiny
+  | step _ hop e ih =>
+    obtain ⟨σ'', e', hi⟩ := world_step_ok ht ih _ hop
+    rw [e] at e'; injection e' with e'; subst e'
+    exact hi
+
+theorem initParams_names {pi tiny : ℝ} :
+    ∀ (fps : List (FParam ℝ)) (ps : List (Nat × TP ℝ)), initParams pi tiny fps = .ok ps →
+      ps.map (·.1) = fps.map (·.name) := by
+  intro fps
+  induction fps with
+  | nil => intro ps h; simp [initParams] at h; subst h; rfl
+  | cons fp fps ih =>
+    intro ps h
+    unfold initParams at h
+    cases h0 : initOne pi tiny fp.shape fp.value with
+    | none => simp [h0] at h
+    | some tp =>
+      cases h1 : initParams pi tiny fps with
+      | error e => simp [h0, h1] at h
+      | ok l =>
+        simp [h0, h1] at h
+        subst h
+        simp [ih l h1]
+
+/-- the negation of the invariant is not vacuous: a copy whose `functionParameters_` were taken from
+the function (as the first constructor does) instead of from the source wrapper -/
+def copyFromFunction (f : Fn ℝ) (w : Wr ℝ) : Wr ℝ := { fn := w.fn, params := w.params, fps := f.ps }
+
 end Bpp.ReparamObj
